@@ -840,6 +840,10 @@ func rC15Serial(w *World, r *Report) {
 		onArrive: func(_, _ *ssa.BasicBlock, _ int, _ boolEnv) { bad = true },
 		onReturn: func(ret *ssa.Return, _ boolEnv) {
 			n++
+			if len(ret.Results) != 3 {
+				bad = true
+				return
+			}
 			if c, ok := ret.Results[2].(*ssa.Const); !ok || c.Value.String() != "false" {
 				bad = true
 			}
@@ -1197,12 +1201,32 @@ func rC16Edges(w *World, r *Report) {
 				}
 			}
 			fromTable := func(v ssa.Value) bool {
-				ex, ok := v.(*ssa.Extract)
-				if !ok || ex.Index != 0 {
+				// the result of retrieveOrAddVertex, or - when that helper is written out in place - a lookup in the
+				// graph's own vertex table on every path (a phi of such lookups)
+				leaves := phiLeaves(v, map[ssa.Value]bool{})
+				if len(leaves) == 0 {
 					return false
 				}
-				cc, ok := ex.Tuple.(*ssa.Call)
-				return ok && calleeName(cc) == "(*dag.Graph).retrieveOrAddVertex"
+				for _, leaf := range leaves {
+					okLeaf := false
+					switch x := leaf.(type) {
+					case *ssa.Extract:
+						if x.Index == 0 {
+							switch t := x.Tuple.(type) {
+							case *ssa.Call:
+								okLeaf = calleeName(t) == "(*dag.Graph).retrieveOrAddVertex"
+							case *ssa.Lookup:
+								_, okLeaf = loadOfFieldNamed(t.X, "Vertices")
+							}
+						}
+					case *ssa.Lookup:
+						_, okLeaf = loadOfFieldNamed(x.X, "Vertices")
+					}
+					if !okLeaf {
+						return false
+					}
+				}
+				return true
 			}
 			ru.Check(mirrored, "edge/mirrored", w.IPos(in), "Children and Parents updated together", "a dependency is recorded in Children without the mirrored Parents entry (skip propagation / readiness would disagree)")
 			ru.Check(fromTable(base) && fromTable(other), "edge/table-entries", w.IPos(in), "both ends are the table's vertices", "an edge is attached to a vertex that is not the table's current entry")
@@ -1422,6 +1446,40 @@ func rC16DFS(w *World, r *Report) {
 			}
 		})
 		ru.Check(okRec && prop, "visit/recursion", w.IPos(rec), "every child visited, error propagated", "a child can be skipped or its cycle error dropped")
+	}
+	// the result starts empty: everything DepthFirstSort returns was appended by a finished visit
+	{
+		startsEmpty, found := true, false
+		eachInstr(d, func(in ssa.Instruction) {
+			var init ssa.Value
+			switch x := in.(type) {
+			case *ssa.Store:
+				// sorted := …  (a local whose address is handed to visit, or a field of a sorter object)
+				if typeString(x.Val.Type()) == "[]*dag.Vertex" {
+					if _, isCall := x.Val.(*ssa.Call); !isCall {
+						init = x.Val
+					}
+				}
+			}
+			if init == nil {
+				return
+			}
+			found = true
+			switch v := init.(type) {
+			case *ssa.MakeSlice:
+				if k, ok := constInt(v.Len); !ok || k != 0 {
+					startsEmpty = false
+				}
+			default:
+				els, sp, ok := elementsOf(init, map[ssa.Value]bool{})
+				if !ok || len(sp) > 0 || len(els) > 0 {
+					startsEmpty = false
+				}
+			}
+		})
+		if found {
+			ru.Check(startsEmpty, "DepthFirstSort/result-starts-empty", w.Pos(d.Pos()), "the sorted list starts with no entries", "the sorted list is created with entries already in it (e.g. make with a length instead of a capacity): the result contains vertices that were never visited (nil)")
+		}
 	}
 	// DepthFirstSort
 	var calls []*ssa.Call
